@@ -49,6 +49,12 @@ func (w *SimWriter) Write(p []byte) (int, error) {
 	w.Offsets = append(w.Offsets, len(w.Buf))
 	if w.FailAt > 0 && w.Writes == w.FailAt {
 		w.Fired = true
+		if w.FailAt%2 == 0 && len(p) > 1 {
+			// a partial write: the first half is accepted, and the error reported with n > 0
+			n := len(p) / 2
+			w.Buf = append(w.Buf, p[:n]...)
+			return n, errInjectedWrite
+		}
 		return 0, errInjectedWrite
 	}
 	if w.Fired {
